@@ -332,6 +332,18 @@ def main():
                         r2 = np.linalg.norm(np.atleast_2d((D @ np.asarray(x2) - b2).T).T, axis=0) / np.linalg.norm(np.atleast_2d(b2.T).T, axis=0)
                         if np.max(r2) > tol:
                             found(clause="A (inv(A) b) = b on a second product with the same inverse object", input=inp, observed=f"relative residual per column {np.round(np.atleast_1d(r2), 10).tolist()}", expected=f"<= {tol:g}")
+                if iterative:
+                    # a vector initial guess with a vector right-hand side (the operator interface hands the vector on as one column), and with a block
+                    xg = rnd(n, cplx=cplx)
+                    for shp in ((n,), (n, 2)):
+                        bb = rnd(*shp, cplx=cplx)
+                        inp = f"inv({name}, CG(tol=1e-10, x0=<vector>)) @ (right-hand side of shape {shp})"
+                        xx = attempt(inp, lambda: inv(A, CG(tol=1e-10, max_iters=500, x0=xg)) @ bb)
+                        if xx is not None:
+                            n_cases[0] += 1
+                            rr = np.linalg.norm(D @ np.asarray(xx) - bb) / np.linalg.norm(bb)
+                            if np.asarray(xx).shape != bb.shape or rr > tol:
+                                found(clause="A (inv(A) b) = b with a vector initial guess", input=inp, observed=f"shape {np.asarray(xx).shape}, relative residual {rr:.3g}", expected=f"shape {bb.shape}, <= {tol:g}")
                 if not iterative:
                     Id = attempt(f"inv({name}, {an}).to_dense()", lambda: dn(Ai))
                     if Id is not None and rel(Id, np.linalg.inv(D)) > 1e-8:
